@@ -12,7 +12,7 @@ META = {
     "level": "exploration",
     "rule": ("case = {op kind, parameters (type descriptors)}; distinct by JSON; non-trivial when the op has "
              ">= 1 non-empty row (Call/LoadFunc: polymorphic signature)"),
-    "required": ["monitor:outer", "monitor:inner", "monitor:port-kind", "monitor:num_out",
+    "required": ["monitor:outer", "monitor:inner", "monitor:port-kind", "monitor:num_out", "monitor:program-port",
                  "monitor:graph-port-type", "monitor:order-port", "feature:arity-changing-instantiation",
                  "feature:empty-row", "feature:linear"] + [f"cases:{k}" for k in (
                      "Input", "Output", "DFG", "CFG", "DataflowBlock", "ExitBlock", "Conditional", "Case",
@@ -384,7 +384,51 @@ def nontrivial(c):
         or c["k"] in ("Noop", "LoadConst", "Const")
 
 
+def check_program_ports(ctx, p):
+    """every port of every node of a built program: Hugr.port_kind must be the kind the op's *serialized*
+    signature gives that port (wire table), and Hugr.port_type the payload of a value kind"""
+    from hugr import Node, tys
+    from vf.interp import Interp
+    from vf.oracles import wire
+    from vf.oracles.observe import enc_op
+
+    h = Interp().run(p)
+    for n in h:
+        op = h[n].op
+        pt = wire.op_ports({"parent": 0, **enc_op(op)})
+        for side, mk, lst, other in (("in", n.inp, pt["in"], pt["other_in"]), ("out", n.out, pt["out"], pt["other_out"])):
+            offs = list(range(len(lst))) + ([-1] if other == "order" else [])
+            for off in offs:
+                ctx.count("monitor:program-port")
+                want = lst[off] if off >= 0 else "order"
+                if isinstance(want, tuple):
+                    want = [want[0], wire.strip_reqs(want[1])]
+                else:
+                    want = [want]
+                try:
+                    got = kind_repr(h.port_kind(mk(off)))
+                except Exception as e:  # noqa: BLE001
+                    got = ["raised", type(e).__name__]
+                if got != want:
+                    ctx.disc(None, "program-port-kind", [type(op).__name__, side, off], want, got,
+                             stratum="program", case=p)
+                elif want[0] == "value" and side == "out":
+                    ptype = h.port_type(mk(off))
+                    if ptype is None or dump_t(ptype) != want[1]:
+                        ctx.disc(None, "program-port-type", [type(op).__name__, side, off], want[1],
+                                 None if ptype is None else dump_t(ptype), stratum="program", case=p)
+    return len(h)
+
+
 def run(ctx):
+    from vf.gen.prog import gen_program
+
+    for i in ctx.mine(ctx.n(300, 10000)):
+        r = ctx.rng("program", i)
+        p = gen_program(r, budget=30, kind="module" if i % 4 == 0 else None,
+                        force=("rowpoly-call",) if i % 4 == 0 else ())
+        nn = ctx.guard("program", p, check_program_ports, ctx, p)
+        ctx.case("program", p, nn is not None and nn >= 6)
     maxd = ctx.n(2, 3)
     for i in ctx.mine(ctx.n(16000, 600000)):
         r = ctx.rng("op", i)
@@ -395,4 +439,7 @@ def run(ctx):
 
 
 def replay(ctx, rec):
-    check_case(ctx, rec["case"])
+    if rec.get("stratum") == "program":
+        check_program_ports(ctx, rec["case"])
+    else:
+        check_case(ctx, rec["case"])
